@@ -6,4 +6,5 @@ INVARIANT InvExact
 INVARIANT InvSuperset
 INVARIANT InvAdjacency
 INVARIANT InvGrid
+INVARIANT InvPairDist
 CHECK_DEADLOCK FALSE
